@@ -180,8 +180,15 @@ class SdkDriver:
         elif op == "loop":
             from netqasm.lang.parsing import parse_register
             reg = st.get("reg")
+            if st.get("stop_from") is not None:
+                fut = self.entry(st["stop_from"]["array"], st["stop_from"]["idx"])
+                int(fut)                      # the host has read the value: the handle now is that number
+                st = dict(st, stop=fut)
             if st["form"] == "ctx":
-                with conn.loop(st["stop"], st["start"], st["step"], parse_register(reg) if reg else None) as i:
+                # (an explicit loop register is given as a Register object or, every other time, by its name)
+                self._named_loops = getattr(self, "_named_loops", 0) + 1
+                with conn.loop(st["stop"], st["start"], st["step"],
+                               (reg if self._named_loops % 2 else parse_register(reg)) if reg else None) as i:
                     self.vars[st["var"]] = i
                     self.block(st["body"])
             else:
